@@ -864,6 +864,17 @@ fn extra<'a>(req: crux_http::Request, client: Client, next: Next<'a>) -> MwFut<'
     })
 }
 
+fn extrar<'a>(req: crux_http::Request, client: Client, next: Next<'a>) -> MwFut<'a> {
+    Box::pin(async move {
+        // a prepared request of its own that carries per-request middleware; what is sent is a clone of it
+        // (a middleware that keeps such a request in a field can only send clones)
+        let mut prepared = crux_http::Request::new(Method::Get, Url::parse("https://h.example/extra/e").unwrap());
+        prepared.middleware(Redirect::new(1));
+        let _ = client.send(prepared.clone()).await;
+        next.run(req, client).await
+    })
+}
+
 macro_rules! add_mw {
     ($b:expr, $stack:expr) => {{
         let mut b = $b;
@@ -873,6 +884,7 @@ macro_rules! add_mw {
                 "pass2" => b.middleware(pass2),
                 "short" => b.middleware(short),
                 "extra" => b.middleware(extra),
+                "extrar" => b.middleware(extrar),
                 "redir0" => b.middleware(Redirect::new(0)),
                 "redir1" => b.middleware(Redirect::new(1)),
                 "redir2" => b.middleware(Redirect::new(2)),
